@@ -2,6 +2,7 @@
 the extracted Coq model (fam/gen/runner) for the same case line.  Canonicalisation: Debug text -> value tokens
 under the schema, hash containers sorted, NaN payloads not distinguished in Debug text, errors compared by
 coarse outcome (ok / err / panic), re-encoded bytes compared after reference decoding (hash order)."""
+import os
 import re
 from . import gengen, genref, genrun
 
@@ -100,3 +101,128 @@ def compare(gb, case, impl_line, model_line):
             return compare_dec(gb, cfg, tname, proto, genrun.Res(mi.group(4)), _split_model(mm.group(3)))
         return None
     return None
+
+
+# ------------------------------------------------------------------ the Coq specifications, evaluated by the runner
+def run_spec(gb, lines):
+    """model-only case lines (ops view / viewk / reenc: the extracted specification functions of EvoSpec.v / KeepSpec.v,
+    applied to the tree the runtime's reader model finds in the bytes) -> output lines, or None without a runner"""
+    from . import core, gencheck
+    runner = gencheck.FAM.runner
+    if not lines:
+        return []
+    if not os.path.exists(runner):
+        return None
+    return core.run_lines(runner, lines, args=[os.path.join(gb.out_dir, 'schema.txt')])
+
+
+def same_text(got, want):
+    """value tokens equal, up to the order of hash containers that hold a NaN (sorted before NaN canonicalisation)"""
+    return got == want or ('dNaN' in got and sorted(got.split(' ')) == sorted(want.split(' ')))
+
+
+def three_way_view(chk, gb, cases, outs):
+    """C08: Coq EvoSpec.view == Python genevo.view (case['want']) == emitted decoder, case by case.  A disagreement of the
+    two specifications is a BROKEN CHECK (reported with no_input; the returned set of case lines is exempted from the
+    code oracle), never a violation of the code; Coq-vs-code differences
+    are only counted here (the Python leg reports them as violations / known findings in `evaluate`)."""
+    sel = [(c, o) for c, o in zip(cases, outs) if c['line'].startswith('dec ') and c.get('model', True) and 'want' in c]
+    mouts = run_spec(gb, ['view ' + c['line'][4:] for c, _ in sel])
+    if mouts is None:
+        chk.cov['three_way'] = dict(status='model runner not available')
+        return set()
+    n, dis, impl_differs = 0, [], 0
+    for (c, o), m in zip(sel, mouts):
+        kind, a, b = c['want']
+        want = b if b is not None else a
+        d = _split_model(m or '')
+        if d['kind'] not in ('ok', 'err'):
+            dis.append((c, m, 'the Coq reader / view gives no result on a reference encoding'))
+            continue
+        n += 1
+        why = None
+        if kind == 'err':
+            if d['kind'] != 'err':
+                why = 'Python: must fail (%s); Coq view: %s' % (a, (m or '')[:120])
+        elif d['kind'] != 'ok':
+            why = 'Python: a value; Coq view: %s' % (m or '')[:120]
+        else:
+            got = genrun.canon_nan_text(d['val'])
+            if not same_text(got, want):
+                why = 'values: ' + genrun.diff_text(got, want)
+            elif d['rem'] != c['restlen']:
+                why = 'bytes after the tree: Coq reader %d, supplied %d' % (d['rem'], c['restlen'])
+        if why:
+            dis.append((c, m, why))
+            continue
+        res = genrun.Res(o)
+        ik = 'ok' if res.kind == 'encerr' else res.kind
+        if ik != d['kind']:
+            impl_differs += 1
+        elif ik == 'ok':
+            gi, w = genrun.value_text(gb, c['cfg'], ('ref', c['type']), res.debug)
+            if w or not same_text(gi, genrun.canon_nan_text(d['val'])):
+                impl_differs += 1
+    chk.cov['three_way'] = dict(what='Coq EvoSpec.view (extracted, on the tree read by Interp.read_val) = pv/genevo.view = emitted decoder',
+                                compared=n, specs_disagree=len(dis), coq_spec_vs_code_differ=impl_differs)
+    if dis:
+        c, m, why = dis[0]
+        chk.violation('check broken: the two specifications of the tolerant reader disagree (Coq EvoSpec.view vs pv/genevo.view) on %d '
+                      'of %d cases: %s' % (len(dis), len(sel), why),
+                      dict(kind='spec-disagreement', case=c, coq_output=(m or '')[:2000], python_want=c['want']), no_input=True)
+    return set(c['line'] for c, _, _ in dis)
+
+
+def three_way_keep(chk, gb, cases, outs, writer_schema):
+    """C13: Coq KeepSpec.viewk == value the keep build decodes; bytes of Coq KeepSpec.reenc (written by the runtime writer
+    model), read back under the writer schema by the reference decoder, == the value written (the Python oracle's
+    expectation) == what the emitted encoder wrote.  Specification disagreements are a broken check."""
+    sel = [(c, o) for c, o in zip(cases, outs)
+           if c['line'].startswith('renc keep ') and c['proto'] == 'binary' and c.get('model', True) and c.get('want') is not None]
+    vk = run_spec(gb, ['viewk ' + c['line'][5:] for c, _ in sel])
+    re_ = run_spec(gb, ['reenc ' + c['line'][5:] for c, _ in sel])
+    if vk is None or re_ is None:
+        chk.cov['three_way'] = dict(status='model runner not available')
+        return set()
+    n, dis, val_differs, enc_differs, known = 0, [], 0, 0, 0
+    for (c, o), mv, mr in zip(sel, vk, re_):
+        ty = ('ref', c['type'])
+
+        res = genrun.Res(o)
+        m = re.match(r'ok ENC ([0-9a-f-]+)$', mr or '')
+        if not m:
+            dis.append((c, mr, 'Coq reenc gives no bytes on a reference encoding'))
+            continue
+        enc = b'' if m.group(1) == '-' else bytes.fromhex(m.group(1))
+        n += 1
+        W = writer_schema(gb, c)
+        try:
+            v2, k, notes = genref.decode(W, ty, enc, 'binary')
+            back = gengen.show(W, ty, gengen.fill_defaults(W, ty, v2)) if (k == len(enc) and not notes) else 'not a message of the writer schema'
+        except Exception as e:
+            back = 'not a message of the writer schema: %r' % (e,)
+        if back != c['want']:
+            dis.append((c, mr, 'the full-schema reader of Coq reenc does not give the written value (%s)' % genrun.diff_text(back, c['want'])))
+            continue
+        if genrun.is_arg_swallow(gb.schema, 'keep', c['type'], 'sync'):
+            known += 1          # finding F-13a: the code deviates from both specifications there (reported by `evaluate`)
+            continue
+        if res.kind == 'ok' and res.enc is not None:
+            if len(res.enc) != len(enc) or sorted(res.enc) != sorted(enc):
+                enc_differs += 1
+            d = _split_model(mv or '')
+            gi, w = genrun.value_text(gb, 'keep', ty, res.debug)
+            if d['kind'] != 'ok' or w or not same_text(gi, genrun.canon_nan_text(d['val'])):
+                val_differs += 1
+        else:
+            enc_differs += 1
+    chk.cov['three_way'] = dict(what='Coq KeepSpec.viewk = value decoded by the keep build; Coq KeepSpec.reenc, written by the runtime writer '
+                                     'model and read back under the writer schema = value written (Python oracle) = bytes of the emitted encoder',
+                                compared=n, specs_disagree=len(dis), coq_viewk_vs_code_differ=val_differs, coq_reenc_vs_code_differ=enc_differs,
+                                code_legs_skipped_known_finding_F13a=known)
+    if dis:
+        c, mr, why = dis[0]
+        chk.violation('check broken: the specifications of retention disagree (Coq KeepSpec.reenc vs the Python oracle) on %d of %d cases: %s'
+                      % (len(dis), len(sel), why),
+                      dict(kind='spec-disagreement', case=c, coq_output=(mr or '')[:2000], python_want=c['want']), no_input=True)
+    return set(c['line'] for c, _, _ in dis)
